@@ -10,5 +10,5 @@ def main(tier='quick', seed=0):
     assumptions = list(cxx.CXX_ASSUMPTIONS) + [
         'retrieve_tree / run (parsing.pyx) rebuild the tree from the back-pointers and the category table: covered by the bounded run on the DePyx text (leaf tokens in order, licensed nodes, allowed root), not deductively',
     ]
-    extra = dict(functions_under_contract=['depccg/parsing.h::parse_sentence (spans, adjacency of children, licensed categories, root and unary guards, pointer shapes, index bounds, no unsigned wrap-around)'], cxx=info)
+    extra = dict(functions_under_contract=['depccg/parsing.h::parse_sentence (spans, adjacency of children, licensed categories, root and unary guards, pointer shapes, index bounds, no unsigned wrap-around)'] + cxx.HELPER_FUNCTIONS['C02'], cxx=info)
     return c12.finish_with(PROP, tier, seed, t0, records, errors, extra, assumptions, ['search_real.py', 'pyx_real.py'])
